@@ -20,7 +20,32 @@ def engine(ctx):
     return ctx._engine
 
 
+def stream_struct_fields(eng):
+    """(class, field) of plain data structs (no methods besides constructors) a field of which is assigned a
+    stream-derived value somewhere in the scope."""
+    cached = getattr(eng, "_stream_struct_fields", None)
+    if cached is not None:
+        return cached
+    out = set()
+    for fn in eng.scope:
+        ft = eng.ft[fn.key]
+        for place, labs in ft.place_labels.items():
+            if place[0] != "f" or not any(is_src(l) for l in labs):
+                continue
+            c = eng.F.classes.get(place[1])
+            if c is None:
+                continue
+            meths = [m for m in c.get("methods", []) if m.get("sn") not in (c["name"].rsplit("::", 1)[-1],)
+                     and not m.get("sn", "").startswith(("~", "operator"))]
+            if not meths:
+                out.add((place[1], place[2]))
+    eng._stream_struct_fields = out
+    return out
+
+
 def label_desc(eng, l):
+    if l and l[0] == "field":
+        return "%s::%s (filled from the stream elsewhere)" % (l[1], l[2])
     info = eng.label_info.get(l, {})
     return "%s read by %s at %s" % (info.get("var") or "value",
                                     info.get("callee", "?"), info.get("site", "?"))
@@ -36,6 +61,10 @@ def run_rule(ctx, rep, rule, finder, allow=None):
         ft = eng.ft[fn.key]
         for sk in finder(eng, ft, fn):
             real = sorted(l for l in sk.labels if is_src(l))
+            if not real and rule == "SUBSCRIPT":
+                # a stream value parked in a plain event struct (TopologySplitEventData::split_symbol_id) and
+                # read back in another function is still a stream value when it is used as an index
+                real = sorted(l for l in sk.labels if l[0] == "field" and (l[1], l[2]) in stream_struct_fields(eng))
             if not real:
                 continue
             unb, why = [], []
